@@ -93,8 +93,9 @@ def main():
     ran.append("git -C /repo checkout -- .")
     dst = VERIF / "seeded" / sid
     dst.mkdir(parents=True, exist_ok=True)
-    shutil.copy(src / "patch.diff", dst / "patch.diff")
-    shutil.copy(src / "demo.py", dst / "demo.py")
+    if src.resolve() != dst.resolve():
+        shutil.copy(src / "patch.diff", dst / "patch.diff")
+        shutil.copy(src / "demo.py", dst / "demo.py")
     try:
         meta = json.loads((src / "meta.json").read_text())
     except Exception:
